@@ -38,6 +38,14 @@ func TestDebug(t *testing.T) {
 			fmt.Println("INFRA", rc.Infra)
 			return
 		}
+		if os.Getenv("DBG_DUMP") != "" {
+			// print the trace of exactly this run (for diffing two executions)
+			fmt.Printf("HASH %016x\n", rc.Hash)
+			for _, l := range rc.Trace {
+				fmt.Println("  ", l)
+			}
+			return
+		}
 		if hit {
 			fmt.Println("run", i, rc.Desc)
 			for _, l := range rc.Trace {
